@@ -1031,7 +1031,7 @@ pub fn run_c19(cfg: &Cfg) -> i32 {
         "one evaluation = one run of the real agent binary in daemon mode under the clock-dilation shim against a fake Junos whose connections fail or succeed by script, with signals sent at scripted virtual times; the virtual timestamps of the connections, the logged back-off values and the exit are checked; \
          distinct = distinct (period, outcome sequence, signal schedule); non-trivial = all",
     );
-    rep.assumptions.push("virtual time = real monotonic time x K (LD_PRELOAD shim on clock_gettime/epoll_wait); tolerance max(5 virtual s, 5 %); runs whose harness timer overshoot exceeds max(20 ms, 2000/K ms) are repeated at a lower K, and inconclusive if that happens even at K=10".into());
+    rep.assumptions.push("virtual time = real monotonic time x K (LD_PRELOAD shim on clock_gettime/epoll_wait); tolerance max(5 virtual s, 5 %); runs whose harness timer overshoot exceeds max(20 ms, 2000/K ms) are repeated at a lower K (30, then 10) as long as the scenario then takes at most ten real minutes, and are inconclusive otherwise".into());
     if !std::path::Path::new(&e2e::agent_bin()).exists() {
         eprintln!("agent binary not built");
         return 2;
@@ -1106,7 +1106,9 @@ pub fn run_c19(cfg: &Cfg) -> i32 {
                     let mut reruns = 0u64;
                     loop {
                         match run_daemon(k, period, &outcomes, &signals, end, &slow, &opts) {
-                            Ok(o) if o.overshoot_ms > (2000.0 / k).max(20.0) && k > 10.0 => {
+                            // repeat at a lower K - unless the scenario would then take more than
+                            // ten real minutes (long periods): that one stays inconclusive
+                            Ok(o) if o.overshoot_ms > (2000.0 / k).max(20.0) && k > 10.0 && end / (if k > 30.0 { 30.0 } else { 10.0 }) <= 600.0 => {
                                 reruns += 1;
                                 k = if k > 30.0 { 30.0 } else { 10.0 };
                             }
@@ -1139,7 +1141,7 @@ pub fn run_c19(cfg: &Cfg) -> i32 {
         // a hiccup of the harness' own timers is tolerable as long as it stays well inside the
         // tolerance of 5 virtual seconds (= 5000/K real ms)
         if o.overshoot_ms > (2000.0 / k).max(20.0) {
-            rep.inconclusive(sc.name, &format!("harness timer overshoot {:.1} ms even at K={k}", o.overshoot_ms));
+            rep.inconclusive(sc.name, &format!("harness timer overshoot {:.1} ms at K={k} (no lower K within the time allowed)", o.overshoot_ms));
             continue;
         }
         if sc.opts.leftover_evaluation_on_silent_irr.is_some() {
